@@ -20,7 +20,7 @@ from __future__ import annotations
 from fractions import Fraction as F
 
 from ..absint import Raised, TOP, Evaluator, FuncV, Lin, Obj, SliceV, Sym, Unmodelled, simplify
-from ..harness import foreign_ops, da_attr_models, da_method_models
+from ..harness import applied_function, foreign_ops, da_attr_models, da_method_models
 from ..kernel import KernelFault, Data, KernelEval, OrderType, Quot, SumV, Term, order_types_point_vs_edges
 from ..xmodel import dimsym, make_da, make_grid
 
@@ -243,8 +243,13 @@ def _flip(ctx, P):
             res.append((cls, o))
     rev = SliceV(None, None, -1)
 
+    def identity(k):
+        """x[::1], x[:], x[..., ::1] select everything in the same order."""
+        ks = k if isinstance(k, tuple) else (k,)
+        return all(x is Ellipsis or (isinstance(x, SliceV) and x.lo is None and x.hi is None and x.step in (None, 1)) for x in ks)
+
     def gi(o):
-        return [e[1] for e in o.eff if e[0] == "getitem"] if isinstance(o, Obj) else None
+        return [e[1] for e in o.eff if e[0] == "getitem" and not identity(e[1])] if isinstance(o, Obj) else None
 
     calls_iter = iter(calls)
     for cls, o in res:
@@ -275,7 +280,7 @@ def _flip(ctx, P):
                 bad = bad or "the result is reversed with out[::-1], i.e. along its FIRST axis: with several columns the columns are exchanged instead of the bins reversed"
             elif g != [(Ellipsis, rev)]:
                 bad = bad or f"with decreasing bins the result must be reversed along its last axis (out[..., ::-1]); found subscripts {g}"
-        elif v.eff:
+        elif [e for e in v.eff if not (e[0] == "getitem" and identity(e[1])) and e[0] not in ("copy",)]:
             bad = bad or f"with increasing bins the kernel's result must be returned untouched; found {v.eff!r}"
         if bad:
             ctx.report("R07.1", fi, inst, bad)
@@ -332,13 +337,13 @@ def _wrapper(ctx, P):
     else:
         a, kw = au[0]
         icd, ocd = kw.get("input_core_dims"), kw.get("output_core_dims")
-        k = a[0]
+        k, _kernel_kwargs = applied_function(a[0], kw)
         if not (isinstance(k, FuncV) and k.name.endswith("interp_1d_conservative")):
             bad = f"apply_ufunc is not applied to interp_1d_conservative ({k!r})"
         names = [x.name if isinstance(x, Obj) else None for x in a[1:]]
         if names != ["phi", "theta", "levels"]:
             bad = bad or f"arguments {names}; expected (phi, theta, target levels)"
-        if not (isinstance(icd, list) and len(icd) == 3 and all(len(x) == 1 for x in icd)):
+        if not (isinstance(icd, (list, tuple)) and len(icd) == 3 and all(len(x) == 1 for x in icd)):
             bad = bad or f"input_core_dims={icd!r}; expected one core dim for each of phi, theta, target"
         else:
             if not all(isinstance(x, Obj) and "dims" in x.attrs for x in a[1:4]) or len(a) < 4:
@@ -348,7 +353,7 @@ def _wrapper(ctx, P):
                 dims_of = [a[1].attrs["dims"], a[2].attrs["dims"], a[3].attrs["dims"]]
             if dims_of is not None and not (icd[0][0] in dims_of[0] and icd[1][0] in dims_of[1] and icd[2][0] in dims_of[2] and icd[0][0] != Sym("t")):
                 bad = bad or f"input_core_dims={icd!r} are not the column dimensions of the respective arguments {dims_of}"
-        if not (isinstance(ocd, list) and len(ocd) == 1 and len(ocd[0]) == 1):
+        if not (isinstance(ocd, (list, tuple)) and len(ocd) == 1 and len(ocd[0]) == 1):
             bad = bad or f"output_core_dims={ocd!r}"
         else:
             sizes = (kw.get("dask_gufunc_kwargs") or {}).get("output_sizes", {})
